@@ -65,6 +65,14 @@ def closed_pool(name: str, cfg: Dict[str, Any], seed: int):
             idx = int(i * step)
             if idx < len(rest) and rest[idx] not in chosen:
                 chosen.append(rest[idx])
+    # the hand-picked words of the grammar (several statements / rows / nested elements: trees in which an open leaf
+    # has more than one ancestor of the quantified nonterminal)
+    from bounded.reftree import to_struct as _ts, all_trees_from_string as _all
+    for s_ in H.EXTRA_STRINGS.get(name, [])[: cfg.get("extra_words", 6)] if name != "wide" else []:
+        for tree in _all(GRAMMARS[name], s_, "<start>", limit=1):
+            st_ = _ts(tree)
+            if st_ not in chosen and H.max_fanout(st_) < 29:
+                chosen.append(st_)
     if name == "wide":
         # the 30/40-children trees: prefixes are the cuts of single children (limit applies)
         from bounded.reftree import to_struct, tree_from_string
